@@ -182,7 +182,8 @@ def expected(rows, awards=None):
 
 # ---- generator ------------------------------------------------------------------------------------
 
-HOSTILE_TEXT = ["plain description", "with # hash", "line1\nline2", "x\r\ny",
+HOSTILE_TEXT = ["plain description", "with # hash", "line1\nline2", "x\r\ny", "bare\rcarriage return",
+                "evil\r2024-01-01 BUY HACK 100 @ 1 USD", "\rleading", "trailing\r", "vertical\x0btab", "nel\x85", "ls\u2028sep",
                 "evil\n2024-01-01 BUY HACK 100 @ 1 USD", "tab\tseparated", "unicode üñí €", "", "   ",
                 "# leading hash", "2024-01-01 SELL XYZZ 1 @ 1", "quote \" and \\ backslash", "a\n\n\nb"]
 
